@@ -59,7 +59,9 @@ var Options = []Opt{
 	{"SpecialQueryPercentEncodeSet(+a)", func() url.ParserOption {
 		return url.WithSpecialQueryPercentEncodeSet(url.SpecialQueryPercentEncodeSet.Set('a', '='))
 	}, false},
-	{"FragmentPathPercentEncodeSet(+a)", func() url.ParserOption { return url.WithFragmentPathPercentEncodeSet(url.FragmentPercentEncodeSet.Set('a')) }, false},
+	{"FragmentPathPercentEncodeSet(+a)", func() url.ParserOption {
+		return url.WithFragmentPathPercentEncodeSet(url.FragmentPercentEncodeSet.Set('a'))
+	}, false},
 	{"SpecialFragmentPathPercentEncodeSet(+b)", func() url.ParserOption {
 		return url.WithSpecialFragmentPathPercentEncodeSet(url.FragmentPercentEncodeSet.Set('b'))
 	}, false},
